@@ -339,6 +339,51 @@ SameProgs == SamePairs(SameNums, TRUE) \o SamePairs(SameStrs, TRUE) \o SamePairs
                \o Map1(SameObjs3 \o SameObjs \o SameMaps \o SameNested, LAMBDA x : ECall(N_string, <<x>>))
                \o Map1(SameObjs3 \o SameObjs \o SameMaps \o SameNested, LAMBDA x : L1(x))
 
+(* ------------------------------------------------------------------ C19: debug evaluation (built-ins only, env E0) *)
+Mul(a, b) == ECall(N_star, <<a, b>>)
+DbgProgs0 == <<
+    Gt(Add(EMem(Var(N_ob), N_a), ESub(Var(N_xs), EInt(1))), ECall(N_len, <<Var(N_s)>>)),
+    If(Var(N_b), Var(N_n), ESub(Var(N_xs), EInt(99))), If(Var(N_c), ESub(Var(N_xs), EInt(99)), Var(N_p)),
+    ECall(N_andand, <<Var(N_c), Gt(ESub(Var(N_xs), EInt(99)), EInt(0))>>), ECall(N_oror, <<Var(N_b), Gt(ESub(Var(N_xs), EInt(99)), EInt(0))>>),
+    Add(ESub(Var(N_m), S(<<97>>)), Var(N_n)), ECall(N_get, <<Var(N_xs), EInt(5), EInt(0)>>),
+    Add(Var(N_eacute), Mul(ECall(N_len, <<S(<<233, 26195>>)>>), Var(N_n))), Add(S(<<233, 26195>>), Var(N_u)),
+    Add(ECall(N_string, <<Var(N_m)>>), Var(N_s)), Add(EMem(ESub(Var(N_os), EInt(1)), N_b), S(<<122>>)),
+    ESub(EList(<<Var(N_n), Var(N_p)>>), EInt(0)), EMem(EObj(<<EFld(N_a, Var(N_n))>>), N_a),
+    Add(ESub(Var(N_xs), EInt(99)), Var(N_n)), ECall(N_percent, <<Var(N_n), Var(N_z)>>), ESub(Var(N_m), S(<<122, 122>>)),
+    Add(Var(N_n), ESub(Var(N_xs), EInt(99))), ECall(N_match, <<S(<<40>>), Var(N_s)>>),
+    If(Gt(ECall(N_len, <<Var(N_xs)>>), EInt(2)), If(Var(N_c), EInt(1), EMem(Var(N_oba), N_a)), Neg(Var(N_n))),
+    ECall(N_eqeq, <<ECall(N_union, <<Var(N_xs), EList(<<Var(N_n), EInt(9)>>)>>), Var(N_xs)>>),
+    ECall(N_get, <<Var(N_mx), Var(N_n)>>), ECall(N_get, <<ESub(Var(N_lo), EInt(0)), EInt(0)>>),
+    Neg(Neg(Var(N_n))), Not(Not(Var(N_b))), Add(Add(Add(Var(N_n), Var(N_n)), Var(N_n)), Var(N_n)),
+    Gt(ECall(N_minus, <<Var(N_d), Var(N_tm)>>), EInt(0)), ECall(N_isset, <<Var(N_m), Var(N_s)>>),
+    EMap(<<EPair(Var(N_s), Var(N_n)), EPair(Add(Var(N_s), S(<<50>>)), ECall(N_len, <<Var(N_xs)>>))>>),
+    Var(N_n), EInt(1), S(<<97>>), Add(EInt(1), EInt(2)), ECall(N_len, <<Var(N_u)>>)>>
+DbgProgs == Map1(DbgProgs0, LAMBDA e : InEnvId(e, "E0"))
+              \* ... and, through closure.DebugCompile on an engine with user functions, terms evaluated several times / never
+              \o <<ECall(N_twice, <<T(1, Var(N_n))>>), ECall(N_never, <<T(1, Var(N_n))>>), ECall(N_twice, <<Add(Var(N_n), Var(N_p))>>),
+                   ECall(N_lif, <<T(1, Var(N_b)), T(2, Var(N_n)), ESub(Var(N_xs), EInt(99))>>),
+                   ECall(N_second, <<ESub(Var(N_xs), EInt(99)), Add(Var(N_n), EInt(1))>>),
+                   EDyn(ESub(Var(N_fs), EInt(0)), <<Var(N_n)>>), ECall(N_pick, <<Var(N_ob), Var(N_oba)>>)>>
+
+\* The layout universe: every combination of recorded terms of different value widths (ASCII and non-ASCII text, member
+\* chains, subscripts, calls) in three shapes, each rendered in several source styles (style: bit 0 ?:, bit 1 method
+\* sugar, bit 2 wide operators, bit 3 tight operators -- the harness renders, the specification parses what was rendered).
+DbgNumT == <<Var(N_n), Var(N_eacute), EMem(Var(N_ob), N_a), ESub(Var(N_xs), EInt(1)), ECall(N_len, <<Var(N_u)>>),
+             EMem(EMem(EObj(<<EFld(N_a, Var(N_ob))>>), N_a), N_a), Mul(Var(N_n), EInt(1000))>>
+DbgStrT == <<Var(N_s), Var(N_u), EMem(Var(N_ob), N_b), ESub(Var(N_ss), EInt(0)), Add(Var(N_u), Var(N_u)),
+             EMem(EMem(EMem(EObj(<<EFld(N_b, EObj(<<EFld(N_a, Var(N_oba))>>))>>), N_b), N_a), N_b)>>
+DbgStyles(size) == IF size >= 2 THEN <<0, 2, 4, 8, 6, 10>> ELSE <<0, 4, 10>>
+DbgProgs2(size) ==
+  LET base == Prod3(DbgNumT, DbgNumT, DbgNumT, LAMBDA a, b, c : Gt(Add(a, b), c))
+                \o Prod3(DbgStrT, DbgStrT, DbgNumT, LAMBDA a, b, c : Gt(ECall(N_len, <<Add(a, b)>>), c))
+                \o Prod2(DbgStrT, DbgStrT, LAMBDA a, b : ECall(N_eqeq, <<a, b>>))
+                \o Prod3(<<Var(N_b), Var(N_c), Gt(Var(N_n), EInt(2))>>, DbgStrT, DbgStrT, LAMBDA c, a, b : If(c, a, b))
+      sty == DbgStyles(size)
+      \* quick: one style per program, rotating; thorough: every style
+      pick == IF size >= 2 THEN Concat([i \in 1..Len(base) |-> [k \in 1..Len(sty) |-> [e |-> base[i], envid |-> "E0", style |-> sty[k]]]])
+              ELSE [i \in 1..Len(base) |-> [e |-> base[i], envid |-> "E0", style |-> sty[(i % Len(sty)) + 1]]]
+  IN pick
+
 (* ------------------------------------------------------------------ C05: registration orders *)
 GArgs == <<Var(N_n), Var(N_s), Var(N_xs), Var(N_ss), Var(N_ys), EList(<<>>), EList(<<EInt(1)>>), Var(N_ob), Var(N_m), Var(N_mx),
            EInt(1), S(<<97>>), EList(<<Var(N_xs)>>)>>
